@@ -20,7 +20,7 @@ func init() {
 			"operand values are unique per position and kept >= 1e-3 away from non-differentiable points (ties of Max/Min/ElMax/ElMin, zero divisors, Log/fractional Pow of non-positive values, Tan poles, zero standard deviation), except the boundary points the statement names",
 			"gradient comparison: |r-e| <= 1e-10*(1+max|e|) + 1e-9*max(|r|,|e|)",
 		},
-		FloorQuick: 6000, FloorThor: 80000,
+		FloorQuick: 15000, FloorThor: 60000,
 		Run: runC02,
 	})
 }
@@ -30,9 +30,9 @@ var c02Exponents = []float64{-2, -1, -0.5, 0, 0.5, 1, 2, 3, 2.5}
 func runC02(c *fw.Ctx) {
 	var shapes [][]int
 	if c.Quick() {
-		shapes = Shapes(0, 3, 3)
+		shapes = Shapes(0, 4, 3)
 		// a fixed pseudo-random sample of rank-4/5 shapes (deterministic in the seed)
-		all := Shapes(4, 5, 3)
+		all := Shapes(5, 5, 3)
 		for i := 0; i < 60; i++ {
 			shapes = append(shapes, all[int(uint64(c.Seed*7919+int64(i)*104729)%uint64(len(all)))])
 		}
